@@ -94,6 +94,21 @@ def search(job):
                 obs, exp = run(r, exceptions, doc, frag), ("value", val)
                 if not same(obs, exp):
                     out.append({"kind": "S" if obs[0] == "exception" else "F", "doc": doc, "fragment": frag, "expected": repr(exp), "observed": repr(obs)})
+    # one resolver, a document that changes between two look-ups (and a new document of the same shape): no memory
+    doc = {"a": 1, "l": [1, 2]}
+    steps = [("/a", ("value", 1)), ("/l/1", ("value", 2))]
+    for frag, want in steps:
+        tried += 1
+        first = run(r, exceptions, doc, frag)
+        if not same(first, want):
+            out.append({"kind": "F", "doc": doc, "fragment": frag, "expected": repr(want), "observed": repr(first)})
+    doc["a"] = 5
+    del doc["l"][1]
+    for frag, want in (("/a", ("value", 5)), ("/l/1", ("error",))):
+        tried += 1
+        again = run(r, exceptions, doc, frag)
+        if not same(again, want):
+            out.append({"kind": "F", "doc": doc, "fragment": frag, "expected": repr(want), "observed": repr(again) + " (after the document was edited; same resolver)"})
     # index-like tokens at every array location (digits that are not ASCII decimal, signs, padding, separators)
     for doc in DOCS:
         for toks, val in all_locations(doc):
